@@ -46,6 +46,52 @@ def scenarios(ctx, n, malformed_share=0.3):
         out.append(([f"file full.oab {f.hex()}", "new oab", "decompress i0 full.oab out", "destroy i0"], dict(family="oab.huge-sizes", how="directed", kind="oab")))
         pf = struct.pack("<IIIIIII", 3, 2, 0xFFFFFFFF, 0, 0xFFFFFFFF, 0, 0) + struct.pack("<IIII", big, 50, 0, 0) + bytes(6000)
         out.append(([f"file patch.oab {pf.hex()}", "file base.oab -", "new oab", "decompressinc i0 patch.oab base.oab out", "destroy i0"], dict(family="oab.huge-sizes", how="directed", kind="oab")))
+    # optional format variants, small enough for EVERY fault point to be tried in the quick tier too (meta exhaustive):
+    #  - a cabinet with all three reserved areas (header, folder, per-block) and blocks without checksum, stored and MSZIP
+    #  - a CHM directory of several PMGL chunks without an index chunk, names looked up through fast_find()
+    #  - a CHM reset table whose entry size is neither 4 nor 8 (SpanInfo fall-back)
+    import zlib
+    from lib import minicab
+    def ck(d):
+        co = zlib.compressobj(9, zlib.DEFLATED, -15); return b"CK" + co.compress(d) + co.flush()
+    for comp in (0, 1):
+        datas = [bytes(rng.choice(b"abcdefgh") for _ in range(k)) for k in (300, 120)]
+        payloads = [((ck(d) if comp else d), len(d)) for d in datas]
+        if comp: payloads = payloads[:1]
+        tot = sum(u for _, u in payloads)
+        cab, _ = minicab.build([(comp, payloads)], [dict(name=b"a.bin", length=100, offset=0, folder=0), dict(name=b"b.bin", length=tot - 100, offset=100, folder=0)],
+                               header_res=b"hdr-reserve", folder_res=3, data_res=5, checksum=False)
+        for salv in (0, 1):
+            out.append(([f"file r.cab {cab.hex()}", "new cab", f"param i0 SALVAGE {salv}", "param i0 DECOMPBUF 64", "open i0 r.cab", "extract i0 h0 0 o0", "extract i0 h0 1 o1",
+                         "close i0 h0", "destroy i0"], dict(family="cab.reserves", how="directed", kind="cab", salvage=bool(salv), exhaustive=True)))
+    for _ in range(40):
+        try:
+            case = S.vgen_case(rng, "chm", "small", index_levels=0, chunk_size=64)
+        except Exception:
+            continue
+        if case["meta"].get("depth") == 1 and case["meta"].get("nchunks", 0) >= 3 and len(case["members"]) >= 3: break
+    else:
+        case = None
+    if case:
+        nm = case["meta"]["order"][0]; mem = case["members"]
+        names = [mem[0]["name"], mem[len(mem) // 2]["name"], mem[-1]["name"]]
+        ops = ["new chm", f"fastopen i0 {nm}"]
+        for j, n_ in enumerate(names): ops += [f"fastfind i0 h0 {n_.hex() or '='}"]
+        ops += [f"fastfind i0 h0 {b'/zzzz-no-such-name'.hex()}", f"ffextract i0 h0 {names[-1].hex() or '='} ff", "close i0 h0", "destroy i0"]
+        out.append((S.file_lines(case) + ops, dict(family="chm.pmgl-chain", how="directed", kind="chm", exhaustive=True)))
+    for rt in ("entry16", "entry12"):
+        for _ in range(20):
+            try:
+                case = S.vgen_case(rng, "chm", "medium", rtable=rt)
+            except Exception:
+                continue
+            if case["meta"].get("lzx", {}).get("reset_intervals", 0) >= 2: break
+        else:
+            continue
+        mem = case["members"]; nm = case["meta"]["order"][0]
+        far = sorted((j for j, m in enumerate(mem) if m["section"] == 1 and m["data"]), key=lambda j: -mem[j]["offset"])[:3]
+        out.append((S.file_lines(case) + ["new chm", f"open i0 {nm}"] + [f"extract i0 h0 {j} o{j}" for j in far] + ["close i0 h0", "destroy i0"],
+                    dict(family="chm.reset-entry-size", how="directed", kind="chm", rtable=rt)))
     # a few fixtures (search, split set)
     cabs = os.path.join(C.REPO, "cabextract/test/cabs")
     out.append(([f"fileref s.cab {cabs}/search.cab", "new cab", "param i0 SEARCHBUF 64", "search i0 s.cab", "extract i0 h0 0 o0", "extract i0 h3 0 o3",
@@ -75,14 +121,14 @@ def profile(ctx, cw_paths):
 def strip_counters(line):
     return re.sub(r" edges=\d+| calls=\S+", "", line)
 
-def fault_points(ctx, totals, per_kind_quick=3):
+def fault_points(ctx, totals, per_kind_quick=3, exhaustive=False):
     """which (kind, k[, mode]) single faults to inject for a scenario with these call totals"""
     rng = ctx.rng
     pts = []
     for kind in KINDS:
         n = totals.get(kind, 0)
         if n == 0: continue
-        if ctx.tier == "thorough":
+        if ctx.tier == "thorough" or (exhaustive and n <= 120):
             ks = range(1, n + 1) if n <= 400 else sorted(set(list(range(1, 200)) + rng.sample(range(200, n + 1), 200)))
         else:
             ks = sorted(set([1, n] + [rng.randint(1, n) for _ in range(per_kind_quick)]))
